@@ -301,3 +301,23 @@ prop('C08',
               'answering a substream request exactly once unless the connection terminates (connection task)', 'keep-alive downgrades (timers)',
               'ordering between protocols and the manager (cross-task)'],
      )
+
+prop('C02',
+     explanation='Bounded model checking of the real NoiseSocket poll_read / poll_write / poll_flush (frame length arithmetic, read-ahead buffer, '
+                 'write buffer, 0/1-byte carry-over) between two ends of an established session over an in-memory link with scripted '
+                 'fragmentation, with the cipher replaced by a length/tag/nonce-faithful stub: the bytes read equal the bytes written.',
+     units=[
+         dict(harness='c02_noise_stream', name='c02_noise_stream_small', covers=['c02.read', 'c02.delivered', 'c02.read-pending'], min_paths=100, split=5,
+              params={'quick': {'io_budget': 3}, 'thorough': {'io_budget': 5}}, conform={'quick': 100, 'thorough': 500}, nvals=20),
+         dict(harness='c02_noise_stream', name='c02_noise_stream_frames', covers=['c02.read', 'c02.delivered'], min_paths=50, split=4,
+              params={'quick': {'io_budget': 1, 'big_frames': 1}, 'thorough': {'io_budget': 3, 'big_frames': 1}}, conform={'quick': 20, 'thorough': 100}, nvals=20,
+              time_cap={'quick': 1500, 'thorough': 14000}),
+     ],
+     assumptions=['cipher stub: ciphertext = plaintext || 16-byte tag (direction, nonce); snow length limit 65535; tag and nonce are checked on decryption; '
+                  'integrity of the payload bytes against tampering is the AEAD\'s guarantee and not modelled',
+                  'the two cipher states come from a completed handshake (natively: a real in-memory Noise XX handshake)'],
+     bounds={'write sizes': '1, 2, 300 (+0/1/300) and 65519, 65520, 65521, 65536, 131040 (+0/1)', 'reader buffers': '1, 7, 300 / 16384, 65520, 70000',
+             'read-ahead frames': '1..2', 'write buffer frames': '1..2', 'carrier': 'io_budget scripted answers (Pending / 1 byte / all), then ideal'},
+     outside=['tamper / replay / drop / reorder detection (AEAD + nonce: only the length/tag/nonce part is in the stub)', 'the handshake itself (C01)',
+              'payload contents other than the fixed position pattern'],
+     )
